@@ -161,7 +161,7 @@ MatchesTag(M, v) ==
     [] M[1] = "deque" -> v[1] = "deque"
     [] M[1] \in {"set", "aset"} -> v[1] = "set"
     [] M[1] = "frozenset" -> v[1] = "frozenset"
-    [] M[1] \in {"vtuple", "tuple", "utuple"} -> v[1] = "tuple"
+    [] M[1] \in {"vtuple", "tuple", "utuple", "ustar"} -> v[1] = "tuple"
     [] M[1] \in {"dict", "mapping", "mmapping", "tdict"} -> v[1] = "dict"
     [] M[1] = "odict" -> v[1] = "OrderedDict"
     [] M[1] = "ddict" -> v[1] = "defaultdict"
@@ -246,7 +246,7 @@ PackB(T, cx, v) ==
          IF T[1] = "set" /\ ConvFree(T, cx) THEN v          \* passed by reference under no_copy_collections: stays a set
          ELSE <<"bag", { Pack(T[2], ElemCx(cx), e) : e \in v[2] }>>
     [] T[1] = "tuple" -> L([i \in DOMAIN T[2] |-> Pack(T[2][i], ElemCx(cx), v[2][i])])
-    [] T[1] = "utuple" ->       \* Tuple[pre..., *Tuple[mid, ...], post...]
+    [] T[1] \in {"utuple", "ustar"} ->       \* Tuple[pre..., *Tuple[mid, ...], post...]
          LET n == Len(v[2]) p == Len(T[2]) q == Len(T[4]) IN
          L([i \in 1..n |-> IF i <= p THEN Pack(T[2][i], ElemCx(cx), v[2][i])
                            ELSE IF i > n - q THEN Pack(T[4][i - (n - q)], ElemCx(cx), v[2][i])
